@@ -310,6 +310,17 @@ func c13History(ctx *core.Ctx) {
 	for _, o := range c13Ops(shared, graphM)[6:] {
 		alphabet = append(alphabet, op{o.Name, o.F})
 	}
+	// calls that FAIL part-way: whatever they leave behind must not show in later calls
+	for vi, bad := range c14FailingVariants(shared) {
+		if vi != 4 && vi != 3 {
+			continue
+		}
+		bad := bad
+		alphabet = append(alphabet, op{fmt.Sprintf("print-failing-variant%d-of-shared-modular", vi+1), func() string {
+			s, err := transformer.TransformJSONProtoToDSL(bad, transformer.WithIncludeSourceInformation(true))
+			return s + errStr(err)
+		}})
+	}
 	builderOp := map[int]bool{}
 	for i, wm := range c13BuilderModels() {
 		wm := wm
@@ -407,7 +418,7 @@ func c13History(ctx *core.Ctx) {
 						for _, h := range hist {
 							names = append(names, alphabet[h].name)
 						}
-						ctx.Violation("result-depends-on-history", fmt.Sprintf("after history %v the call %s returns something else than in a cold process", names[:len(names)-1], alphabet[i].name),
+						ctx.Violation("result-depends-on-history", fmt.Sprintf("after history %v the call %s returns something else than in a cold process (if the state involved is not one the reset hook restores - parser caches, the long-lived builder - it may stem from an earlier transition of this search in the same worker)", names[:len(names)-1], alphabet[i].name),
 							c13Case{Sub: "history", History: hist, Ops: names}, cold[i], out)
 						return
 					}
@@ -695,7 +706,7 @@ func init() {
 	core.Register(&core.Check{
 		ID: "C13",
 		Rule: "(1) inputs untouched: every full model of the generator families, the modular models and every 97th graph model, with the type definitions reversed, through printer (both options), both graph builders and the utils: strict snapshot before = after; module file slices through the merger. " +
-			"(2) history independence, explicit-state search: state = contents of the process-global ANTLR caches (serialised DFAs), transitions = the real parse entry points on 8 documents (valid, invalid, modular) plus printer, merger, both graph builders and validators, plus one weighted-graph builder value that lives as long as the process, given three models whose tuple-to-usersets resolve against different types (its inputs so far are part of the state key); successor = cache reset + replay of the history + one call; breadth first to depth 3 (quick) / 4 (thorough), no state merging below depth 3; invariant on every transition: output equals the cold output. " +
+			"(2) history independence, explicit-state search: state = contents of the process-global ANTLR caches (serialised DFAs), transitions = the real parse entry points on 8 documents (valid, invalid, modular) plus printer (also on two variants of the shared model that fail part-way), merger, both graph builders and validators, plus one weighted-graph builder value that lives as long as the process, given three models whose tuple-to-usersets resolve against different types (its inputs so far are part of the state key); successor = cache reset + replay of the history + one call; breadth first to depth 3 (quick) / 4 (thorough), no state merging below depth 3; invariant on every transition: output equals the cold output. " +
 			"(3) interleavings: pairs of 12 calls (quick: every call with itself and with three hub calls; thorough: every pair) (parses, modular parse, DSL->JSON, printing shared models, merge, both graph builders on a shared model, validators) as two controlled threads with caches reset, scheduling points at every statement of the repository's packages and every antlr lock operation, preemption bound 1 (thorough: bound 2 on short pairs, three threads bound 1): each result equals the sequential result, shared inputs unchanged, no deadlock, no panic. " +
 			"(4) the same bodies free-running on real threads in a separate -race build: no report with a repository frame. states = cache states + schedule classes, non-trivial = distinct models / call pairs",
 		Assume: []string{
